@@ -850,6 +850,27 @@ func oracleFail(id, sig, msg string, sc *Scenario) {
 	}
 }
 
+// runScenario runs one scenario under a watchdog: a restore that wedges (a lock, a pipe, a
+// copy worker that never returns) becomes an oracle failure with the scenario as replay, and the
+// run ends at once instead of hanging.
+func runScenario(sc *Scenario) {
+	done := make(chan struct{})
+	go func() {
+		defer close(done)
+		runScenarioInner(sc)
+	}()
+	select {
+	case <-done:
+	case <-time.After(90 * time.Second):
+		oracleFail(run.NewID(), "wedged", "the scenario did not finish within 90 s (Add / Copy / Push blocked)", sc)
+		if oracleSide != nil {
+			oracleSide.Sync()
+		}
+		run.Finish()
+		os.Exit(0)
+	}
+}
+
 // ---------- running one scenario ----------
 
 func errClass(err error) string {
@@ -947,7 +968,7 @@ func fetchAll(ctx context.Context, s interface {
 
 var scenarioNo int
 
-func runScenario(sc *Scenario) {
+func runScenarioInner(sc *Scenario) {
 	scenarioNo++
 	ctx := context.Background()
 	work := filepath.Join(run.Dir, "w", fmt.Sprint(scenarioNo))
@@ -1787,7 +1808,9 @@ func runChild(replay string) {
 	if replay != "" {
 		args = append(args, "-replay", replay)
 	}
-	cmd := exec.Command(os.Args[0], args...)
+	cctx, cancel := context.WithTimeout(context.Background(), time.Duration(run.Scale(10, 60))*time.Minute)
+	defer cancel()
+	cmd := exec.CommandContext(cctx, os.Args[0], args...)
 	cmd.Env = append(os.Environ(), "TMPDIR="+tmp, "HOME="+dir)
 	cmd.Dir = dir
 	cmd.SysProcAttr = &syscall.SysProcAttr{Credential: &syscall.Credential{Uid: nonRootUID, Gid: nonRootUID}}
